@@ -85,7 +85,7 @@ pub fn run(rep: &mut Report, thorough: bool) {
     crate::util::install_quiet_panic_hook();
     rep.rule = "targets mapping 0..12 synthetic ELF images like a loader would (build id in PT_NOTE / only in the section table / absent -> XOR fold / all-zero; with/without SONAME; with/without section table; deleted on disk; mapped out of an archive at a non-zero file offset; file names with spaces, UTF-8, .so.N.M tails; the same file twice) plus non-ELF file mappings, and 0..3 caller mappings that contain / partially overlap / are disjoint from target groups with empty or 20-byte identifiers. Oracle: groups from the checker's own /proc/<pid>/maps parse; ids and SONAMEs from the independent ELF reader applied to the image bytes the harness wrote, to the real libraries' files and to the vDSO read from /proc/<pid>/mem. distinct = hash(file specs, user mappings); non-trivial = Ok dump with >= 1 synthetic module judged".into();
     let mut rng = Rng::new(rep.seed.wrapping_mul(808_081));
-    let ntargets = if thorough { 600 } else { 60 };
+    let ntargets = if thorough { 4000 } else { 60 };
     for ti in 0..ntargets {
         let mut b = Builder::new();
         b.spec.dir = crate::target::new_dir("c08");
@@ -390,7 +390,7 @@ fn live_memory_vs_file(rep: &mut Report, t: &Target, groups: &[Group], files: &[
 /// from target memory and from its image bytes and the answers are compared.
 pub fn run_c14_live(rep: &mut Report, thorough: bool) {
     let mut rng = Rng::new(rep.seed.wrapping_mul(141_414));
-    let ntargets = if thorough { 120 } else { 12 };
+    let ntargets = if thorough { 700 } else { 12 };
     for _ in 0..ntargets {
         let mut b = Builder::new();
         b.spec.dir = crate::target::new_dir("c14");
